@@ -107,13 +107,21 @@ struct Builder {
 };
 struct Dyndeps { std::vector<Node*> implicit_inputs_; };
 static int vf_scan_calls = 0; static Edge* vf_scan_edge = 0; static Node* vf_scan_mri = 0; static bool vf_scan_says_dirty = false;
-static int vf_recompute_dirty_calls = 0;
+static int vf_recompute_dirty_calls = 0; static Node* vf_rd_node[3]; static bool vf_rd_ok[3] = { true, true, true }; static bool vf_rd_makes_dirty[3]; static Node* vf_rd_validation[3];
 struct DependencyScan {
   /* contract of RecomputeOutputsDirty: reports through *dirty whether some output of `edge` is dirty w.r.t. most_recent_input */
   bool RecomputeOutputsDirty(Edge* edge, Node* most_recent_input, bool* dirty, std::string* err) {
     (void)err; vf_scan_calls++; vf_scan_edge = edge; vf_scan_mri = most_recent_input; *dirty = vf_scan_says_dirty; return true;
   }
-  bool RecomputeDirty(Node* node, std::vector<Node*>* validation_nodes, std::string* err) { (void)node; (void)validation_nodes; (void)err; vf_recompute_dirty_calls++; return true; }
+  /* contract of RecomputeDirty: re-examines `node` (may mark it dirty), reports validation targets found on the way, false => *err set.  Scripted per call by the harness. */
+  bool RecomputeDirty(Node* node, std::vector<Node*>* validation_nodes, std::string* err) {
+    int k = vf_recompute_dirty_calls < 3 ? vf_recompute_dirty_calls : 2;
+    vf_rd_node[k] = node; vf_recompute_dirty_calls++;
+    if (!vf_rd_ok[k]) { *err = "scan error"; return false; }
+    if (vf_rd_makes_dirty[k]) node->dirty_ = true;
+    if (vf_rd_validation[k] != 0) validation_nodes->push_back(vf_rd_validation[k]);
+    return true;
+  }
 };
 static std::vector<Node*>::iterator vf_find_if_dirty(std::vector<Node*>::iterator first, std::vector<Node*>::iterator last) {
   for (; first != last; ++first) if ((*first)->dirty()) return first;      /* L25: find_if(first, last, mem_fn(&Node::dirty)) */
